@@ -2,19 +2,26 @@
 (* Trace validation of real handshakes against TLSSelect (C13).
    Events written by harness/cmd/c13 (one real execution each):
      mgr{ctxs, insp}       a real serverContextManager was built from this ordered context list (acts as TraceReset)
-     hs{first, sni, up, alpn, peer, vers, plain, cert, ok}
+     hs{first, sni, up, alpn, peer, vers, plain, cert, ok, ticket, resumed, late}
                            a stock crypto/tls client (or a plaintext client) talked to it:
                            plain = the connection was served as plaintext, cert = index of the context whose
                            certificate the client saw (0 = none), ok = handshake completed on both sides and
-                           application data flowed
+                           application data flowed; ticket = the client is a returning peer: it offered the session
+                           ticket / PSK an earlier successful handshake of this very peer left in its session cache,
+                           resumed = the handshake was an abbreviated one (DidResume); late = "yes" / "no": the peer's
+                           short-lived certificate had / had not run out when the handshake took place, "edge": it ran
+                           out while the handshake was under way (clock read before and after against NotAfter)
+     wait{ms}              the driver slept until every short-lived certificate issued so far has run out
      upd{pos, field, val, how, path}   a runtime update of one field of context pos was pushed through `path`
                            (sds-push: SetSecret on the running provider; config-update[:same-file-rewritten|:other-file|
                            :inline-material]: listener TLS update / new manager with the same name, which also
                            re-configures the SDS providers in place; ...:racing-...: the SDS rotation and the config update
                            ran in two goroutines following the gate-level schedule `sched`, both have returned). Contexts carry the realised source of their
                            material (casrc/certsrc inline|file|sds, capath/certpath), informational for the judgement
-     up{cfg, upds, cert, ok, upplain}   a real clientContextManager handshake towards a stock crypto/tls server;
-                           upplain = the upstream received a plaintext connection instead *)
+     up{cfg, upds, cert, ok, upplain, late, resumed}   a real clientContextManager handshake towards a stock crypto/tls server;
+                           upplain = the upstream received a plaintext connection instead; cert.expired is what the clock
+                           said when MOSN connected (late = "edge": the certificate ran out during the handshake),
+                           resumed = the upstream saw an abbreviated handshake *)
 EXTENDS TLSSelect, VTrace
 
 VARIABLE hist    \* [last: field of the last update since mgr ("-" = none), path, prev: the listeners [ctxs, insp] in force before it]
@@ -37,18 +44,22 @@ UpdOf(j) == [pos |-> j.pos, field |-> j.field, val |-> IF j.field \in {"names", 
 
 TraceInit == /\ l = 1 /\ cs = [side |-> "srv", ctxs |-> <<>>, insp |-> FALSE] /\ hist = NoHist
              /\ live = <<>> /\ todo = <<>> /\ pools = {} /\ rc = <<>>
+             /\ sess = [phase |-> "final", ticket |-> NoTicket, late |-> FALSE, resumed |-> FALSE]
              /\ pc = "done" /\ i = 0 /\ dflt = 0 /\ afirst = 0 /\ chosen = 0 /\ served = "-" /\ result = "-"
 
 TMgr == /\ IsEvent("mgr")
         /\ cs' = [side |-> "srv", ctxs |-> CtxsOf(Ev.ctxs), insp |-> Ev.insp] /\ hist' = NoHist
-        /\ UNCHANGED <<live, todo, rc, pools, pc, i, dflt, afirst, chosen, served, result>>
+        /\ UNCHANGED <<live, todo, rc, pools, sess, pc, i, dflt, afirst, chosen, served, result>>
 
 (* the policy in force is the last pushed one: from here on handshakes are judged by the updated list *)
 TUpd == /\ IsEvent("upd")
         /\ Ev.pos \in 0..Len(cs.ctxs)
         /\ LET nl == ApplyUpd(Listener(cs), UpdOf(Ev)) IN cs' = [cs EXCEPT !.ctxs = nl.ctxs, !.insp = nl.insp]
         /\ hist' = [last |-> Ev.field, path |-> Ev.path, prev |-> hist.prev \cup {Listener(cs)}]
-        /\ UNCHANGED <<live, todo, rc, pools, pc, i, dflt, afirst, chosen, served, result>>
+        /\ UNCHANGED <<live, todo, rc, pools, sess, pc, i, dflt, afirst, chosen, served, result>>
+
+(* time passed (informational: every handshake carries what the clock said when it took place) *)
+TWait == /\ IsEvent("wait") /\ UNCHANGED <<vars, hist>>
 
 (* a plaintext client; after an update the failing class names the updated field and the path it took *)
 KP(kind) == IF hist.last = "-" THEN kind ELSE "update:" \o hist.last \o ":" \o hist.path \o ":" \o kind
@@ -77,14 +88,25 @@ SelKind(cl, h, k) ==
     ELSE "select:want-" \o Rule(cl, h) \o ":got-" \o g \o ":sni-" \o SniClass(h)
 
 (* a TLS client *)
+(* a returning peer whose ticket is refused may be turned away before the server shows a certificate (TLS 1.3: the PSK is
+   examined right after the ClientHello): which context answered is then not observable, the one the property prescribes
+   is taken as the one that refused *)
+Unseen(e) == e.ticket /\ ~e.ok /\ e.cert = 0
 SelGood(cl, e) ==
   LET h == HelloOf(e) want == Pick(cl, h) IN
     /\ e.cert \in 0..Len(cl)
     /\ e.cert \in 1..Len(cl) => cl[e.cert].ready
-    /\ IF want = 0 THEN ~e.ok /\ e.cert = 0 ELSE e.cert = want
+    /\ IF want = 0 THEN ~e.ok /\ e.cert = 0 ELSE (e.cert = want \/ Unseen(e))
+(* the expectation at the moment of the handshake: a short-lived certificate is judged by what the clock said then; if
+   it ran out while the handshake was under way either outcome is fine *)
+AuthExpectEv(c, e) == IF e.peer \in ShortLived /\ e.late = "edge" THEN "any" ELSE AuthExpectAt(c, e.peer, e.late = "yes")
+(* a returning peer: the rule is the same, the failing class says that a ticket was in play *)
+ResTag(e) == (IF e.resumed THEN ":session-resumed" ELSE IF e.ticket THEN ":ticket-offered" ELSE "")
+             \o (IF e.peer \in ShortLived /\ e.late = "yes" THEN ":certificate-expired-since" ELSE "")
+Answered(cl, e) == IF Unseen(e) THEN Pick(cl, HelloOf(e)) ELSE e.cert
 AuthGood(cl, e) ==
-  IF e.cert \in 1..Len(cl)
-  THEN LET x == AuthExpect(cl[e.cert], e.peer) IN x = "any" \/ (e.ok <=> x = "ok")
+  IF Answered(cl, e) \in 1..Len(cl)
+  THEN LET x == AuthExpectEv(cl[Answered(cl, e)], e) IN x = "any" \/ (e.ok <=> x = "ok")
   ELSE ~e.ok
 (* after an update the failing class is named by the updated field and the path it took; if the observation is what
    a configuration in force BEFORE the update prescribes, the update did not take effect *)
@@ -100,14 +122,16 @@ TlsChecks(e) ==
         THEN Expect(FALSE, "select:not-ready-context-presented")
         ELSE IF want = 0
              THEN Expect(~e.ok /\ e.cert = 0, K("select:handshake-without-ready-context", e))
-             ELSE Expect(e.cert = want, K(SelKind(cs.ctxs, h, e.cert), e))
+             ELSE Expect(e.cert = want \/ Unseen(e), K(SelKind(cs.ctxs, h, e.cert), e))
      (* client authentication under the context that answered *)
-     /\ IF e.cert \in 1..Len(cs.ctxs)
-        THEN LET c == cs.ctxs[e.cert]
-                 x == AuthExpect(c, h.peer)
+     /\ IF Answered(cs.ctxs, e) \in 1..Len(cs.ctxs)
+        THEN LET c == cs.ctxs[Answered(cs.ctxs, e)]
+                 x == AuthExpectEv(c, e)
              IN Expect(x = "any" \/ (e.ok <=> x = "ok"),
-                       K("auth:" \o Mode(c) \o ":peer-" \o h.peer \o ":want-" \o x \o ":tls" \o ToString(h.vers), e))
+                       K("auth:" \o Mode(c) \o ":peer-" \o h.peer \o ":want-" \o x \o ":tls" \o ToString(h.vers) \o ResTag(e), e))
         ELSE Expect(~e.ok, "select:ok-without-certificate")
+     (* an abbreviated handshake (begun; the server may still refuse it) needs a ticket; it is judged above like a full one *)
+     /\ Expect(e.resumed => e.ticket, "resume:abbreviated-handshake-without-ticket")
 
 THs == /\ IsEvent("hs")
        /\ IF Ev.first = "plain" THEN PlainChecks(Ev) ELSE TlsChecks(Ev)
@@ -126,14 +150,14 @@ TUp == /\ IsEvent("up")
               cfg == ApplyAll(cfg0, us)                     \* the last pushed cluster tls config decides
               cert == UpCertOf(Ev.cert)
               kind == UpKind(cfg, cert, UpExpect(cfg, cert)) IN
-            Expect(UpGood(cfg, cert, Ev.ok),
-                   IF n = 0 THEN kind
+            Expect(Ev.late = "edge" \/ UpGood(cfg, cert, Ev.ok),
+                   IF n = 0 THEN kind \o (IF Ev.resumed THEN ":session-resumed" ELSE "")
                    ELSE "update:" \o us[n].field \o ":" \o Ev.upds[n].path \o ":" \o
                         (IF \E m \in 0..(n - 1) : UpGood(ApplyAll(cfg0, SubSeq(us, 1, m)), cert, Ev.ok) THEN "stale-context-in-force" ELSE kind))
        (* no case configures fall_back: the upstream must never be spoken to in plaintext *)
        /\ Expect(~Ev.upplain, "upstream:plaintext-sent-to-upstream")
        /\ UNCHANGED <<vars, hist>>
 
-TraceNext == TMgr \/ TUpd \/ THs \/ TUp
+TraceNext == TMgr \/ TUpd \/ TWait \/ THs \/ TUp
 TraceSpec == TraceInit /\ [][TraceNext]_tvars
 ====
